@@ -72,8 +72,11 @@ class Env:
 
         def exp_rename(se):
             s, e = se
-            for x in e.free_symbols:
-                e = e.subs(x, Symbol(f"{deff[0]}_{x.name}"))
+            # All the symbols at once: one at a time, `a` renamed to `f_a` would be taken
+            # for an argument that is called `f_a` and renamed again
+            e = e.xreplace(
+                {x: Symbol(f"{deff[0]}_{x.name}") for x in e.free_symbols}
+            )
             return (Symbol(f"{deff[0]}_{s.name}"), e)
 
         deff = (
